@@ -23,7 +23,7 @@ import (
 	"github.com/zenon-network/go-zenon/wallet"
 )
 
-func main() { Main(map[string]Runner{"hist": runHist}) }
+func main() { Main(map[string]Runner{"hist": runHist, "fork": runFork}) }
 
 func runHist(rng *rand.Rand, n int, out *Out, _ []string) {
 	for i := 0; i < n; i++ {
